@@ -238,7 +238,7 @@ Lemma step_E_live s f ag s' ag' :
   h_destroying s = false -> InvA s (f :: ag) -> EI s (f :: ag) -> step s f ag = (s', ag') -> EI s' ag'.
 Proof.
   intros Hnd HA HE H. pose proof HA as HA0. unfold InvA in HA. cbn [ndone] in HA.
-  destruct f as [[cb|full nl cb| | |r|]| | | |]; cbn [step do_op] in H; rewrite ?Hnd in H; cbn [negb andb] in H;
+  destruct f as [[sn cb|full nl cb| | |r|]| | | |]; cbn [step do_op] in H; rewrite ?Hnd in H; cbn [negb andb] in H;
     rewrite ?andb_true_r in H; unfold EI in HE; cbn [logs2] in HE.
   - destruct (s_max s <=? len (s_queue s)).
     + inversion H; subst. unfold EI. cbn. rewrite logs2_app, logs2_fop. exact HE.
@@ -273,7 +273,7 @@ Lemma step_E_dying s f ag s' ag' :
   EI s (f :: ag) -> step s f ag = (s', ag') -> EI s' ag'.
 Proof.
   intros Hd Hp Hdf HE H.
-  destruct f as [[cb|full nl cb| | |r|]| | | |]; cbn in Hdf; try contradiction; cbn [step do_op] in H;
+  destruct f as [[sn cb|full nl cb| | |r|]| | | |]; cbn in Hdf; try contradiction; cbn [step do_op] in H;
     rewrite ?Hd in H; cbn [negb andb] in H; rewrite ?andb_false_r in H; unfold EI in HE; cbn [logs2] in HE.
   - destruct (s_max s <=? len (s_queue s)).
     + inversion H; subst. unfold EI. cbn. rewrite logs2_app, logs2_fop. exact HE.
